@@ -14,8 +14,9 @@ package fuzz
 //      nearest ancestor whose whole ancestry is valid),
 //   2. run A: fresh node, SetState(genesis), ImportBlock(seq[1]), ..., and after every call
 //      GetState of the genesis header, of every block accepted so far and of the block just sent,
-//   3. run B: the same on a fresh node without the calls that run A answered with an error
-//      (the node that never saw the rejected blocks),
+//   3. runs B1, B2, ...: B(k+1) is B(k) (B0 = A) on a fresh node without the first call that B(k)
+//      answered with an error (the node that never saw that rejected block), until nothing is
+//      rejected any more,
 //   4. run C: run A once more on a fresh node.
 // Digests (state roots, key-value sets) are replaced by small integers, equal digests giving
 // equal integers within a case, so that TLC can compare them.
@@ -559,13 +560,26 @@ func TestRun(t *testing.T) {
 			all[i] = i + 1
 		}
 		rej := runOnce(w, out, tab, "A", seq, all)
-		var seqB, idxB []int
-		for i, x := range seq {
-			if !rej[i] {
-				seqB, idxB = append(seqB, x), append(idxB, i+1)
+		// shadows: drop the first call the previous run answered with an error and run the rest on a
+		// fresh node, until a run has no rejection left (B1 never saw A's first rejected block, B2
+		// neither that nor B1's first rejected block, ...)
+		curSeq, curIdx := seq, all
+		for k := 1; k <= 8; k++ {
+			first := -1
+			for i := range curSeq {
+				if rej[i] {
+					first = i
+					break
+				}
 			}
+			if first < 0 {
+				break
+			}
+			nextSeq := append(append([]int{}, curSeq[:first]...), curSeq[first+1:]...)
+			nextIdx := append(append([]int{}, curIdx[:first]...), curIdx[first+1:]...)
+			curSeq, curIdx = nextSeq, nextIdx
+			rej = runOnce(w, out, tab, fmt.Sprintf("B%d", k), curSeq, curIdx)
 		}
-		runOnce(w, out, tab, "B", seqB, idxB)
 		runOnce(w, out, tab, "C", seq, all)
 	}
 }
